@@ -13,7 +13,7 @@ class C14(core.Prop):
     pid = 'C14'
     lean_modules = ['TddaVerif.Props.C14']
     theorems = ['TddaVerif.Props.C14.' + t for t in [
-        'clean_dict_eq_list', 'dict_eq_list', 'freq_irrelevant', 'repeat_is_noop']]
+        'order_independent', 'clean_dict_eq_list', 'dict_eq_list', 'freq_irrelevant', 'repeat_is_noop']]
     quick_n = 300
     thorough_n = 15000
     rule = ('cases: example multisets (as C03) x option subsets x Size settings that force sampling x seeds; each is '
@@ -24,9 +24,10 @@ class C14(core.Prop):
     trusted_base = [
         'as C03: hand-written Lean model of the batch path, tied by correspondence on the given order, one permutation and '
         'the dictionary form of every non-sampling case',
-        'proved: dictionary = list form, irrelevance of frequencies and of repeats (no pruning); the model is a pure function '
-        'so a call cannot depend on history. NOT proved: invariance under reordering (the oracle permutes every case) and '
-        'everything about sampling, the PRNG and the regex memo (oracle only)',
+        'proved (batch path): invariance under reordering (whole result, with or without pruning), dictionary = list form, '
+        'irrelevance of frequencies and of repeats (no pruning); the model is a pure function so a call cannot depend on '
+        'history. NOT proved: everything about sampling, seeds, the global PRNG, hash order and the regex memo (oracle only: '
+        '5 permutations per case, fresh-process re-evaluation under another hash seed)',
         'set / dict iteration order of CPython for the run\'s PYTHONHASHSEED (the thorough tier repeats under a second hash seed)',
     ]
 
